@@ -53,10 +53,33 @@ func (fakeStateMgr) WatchNodeStateChangeEvent(models.NodeID, func(models.NodeSta
 // ---- the follower node: a real Partition over a real FanOutQueue; the three RPC bodies are
 // those of app/storage/rpc/replica.go (ReplicaHandler) applied to that partition
 type followerNode struct {
-	dir   string
-	log   queue.FanOutQueue
-	part  replica.Partition
-	epoch int
+	dir     string
+	log     queue.FanOutQueue
+	part    replica.Partition
+	epoch   int
+	failPut bool
+}
+
+// a follower whose Queue.Put can be made to fail (disk full / page not acquirable): everything else is the real log
+type failPutQueue struct {
+	queue.Queue
+	fail *bool
+}
+
+func (q failPutQueue) Put(b []byte) error {
+	if *q.fail {
+		return errors.New("injected: follower cannot append")
+	}
+	return q.Queue.Put(b)
+}
+
+type failPutFanOut struct {
+	queue.FanOutQueue
+	fail *bool
+}
+
+func (f failPutFanOut) Queue() queue.Queue {
+	return failPutQueue{Queue: f.FanOutQueue.Queue(), fail: f.fail}
 }
 
 func (f *followerNode) open() error {
@@ -65,7 +88,7 @@ func (f *followerNode) open() error {
 		return err
 	}
 	f.log = q
-	f.part = replica.NewPartition(context.Background(), fakeShard{}, fakeFamily{}, 2, q, nil, nil)
+	f.part = replica.NewPartition(context.Background(), fakeShard{}, fakeFamily{}, 2, failPutFanOut{FanOutQueue: q, fail: &f.failPut}, nil, nil)
 	f.epoch++
 	return nil
 }
@@ -236,7 +259,9 @@ func replHistory(rec *trace.Recorder, dir string, rng *rand.Rand, steps int, tai
 	// of the follower's group meta (consumed / acknowledged rolled back by 1..3), handshakes, appends, replicates
 	if !tailLoss && h < 3 {
 		forced = []string{"hs", "append", "append", "append", "append", "round", "round", "round", "round",
-			fmt.Sprintf("losegroup:%d", 1+h), "hs", "append", "append", "round", "round", "round", "round"}
+			fmt.Sprintf("losegroup:%d", 1+h), "hs", "append", "append", "round", "round", "round", "round",
+			// the follower's write fails once while the stream stays healthy; more appends and rounds follow
+			"append", "append", "append", "roundfput", "round", "round", "hs", "round", "round", "round", "round"}
 	}
 	for i := 0; i < steps; i++ {
 		*faults = replFaults{}
@@ -244,6 +269,7 @@ func replHistory(rec *trace.Recorder, dir string, rng *rand.Rand, steps int, tai
 		pending := run.llog.Queue().AppendedSeq() > func() int64 { g, _ := run.llog.GetOrCreateConsumerGroup("2"); return g.ConsumedSeq() }()
 		// the step: scripted (forced) or chosen at random
 		op := ""
+		forceFput := false
 		loseK := int64(1 + rng.Intn(3))
 		if len(forced) > 0 {
 			op, forced = forced[0], forced[1:]
@@ -254,6 +280,10 @@ func replHistory(rec *trace.Recorder, dir string, rng *rand.Rand, steps int, tai
 			if strings.HasPrefix(op, "losegroup:") {
 				loseK = int64(op[len("losegroup:")] - '0')
 				op = "losegroup"
+			}
+			forceFput = op == "roundfput"
+			if forceFput {
+				op = "round"
 			}
 			if (op == "hs" && run.ready()) || (op == "round" && (!run.ready() || !pending)) {
 				continue
@@ -296,14 +326,21 @@ func replHistory(rec *trace.Recorder, dir string, rng *rand.Rand, steps int, tai
 			script = append(script, "hs:"+f)
 		case "round":
 			f := "none"
-			switch rng.Intn(10) {
+			switch rng.Intn(12) {
 			case 0:
 				f, faults.send = "send", true
 			case 1:
 				f, faults.recv = "recv", true
+			case 2:
+				f, fol.failPut = "fput", true
+			}
+			if forceFput {
+				*faults = replFaults{}
+				f, fol.failPut = "fput", true
 			}
 			rec.Emit("Round", trace.F{"fault": f})
 			replica.VerifReplicaRound(run.lpart, 2)
+			fol.failPut = false
 			script = append(script, "round:"+f)
 		case "append":
 			run.nextID++
